@@ -252,9 +252,9 @@ mutual
       have h := compile_sw env e done false false st a b
       sw_close
     | ks, e :: e' :: es, sw, i, done, st, a, b, hsw => by
-      have h1 := compile_sw env e done (!env.dry) (!env.dry && decide ((ks.headD []).card > 1)) st a b
+      have h1 := compile_sw env e done true (decide ((ks.headD []).card > 1)) st a b
       have h2 := compileCases_sw env ks.tail (e' :: es) sw (i + 1) done
-        (compile env e done (!env.dry) (!env.dry && decide ((ks.headD []).card > 1)) st).st a b
+        (compile env e done true (decide ((ks.headD []).card > 1)) st).st a b
         (Nat.lt_of_lt_of_le hsw h1.1)
       sw_close
 end
